@@ -12,8 +12,8 @@
 import FcModel.Spec.C02
 import FcProofs.Lemmas.Fuzzy
 import Mathlib.Tactic.Linarith
-namespace Fc
-open Spec
+namespace Fc.C02
+open Fc.C02.Spec
 
 /-- "close" on the values `vals` is equality of the class function `cl`, and `cl` is monotone -/
 structure Clustered (close : Int → Int → Bool) (vals : List Int) (cl : Int → Int) : Prop where
@@ -227,4 +227,4 @@ theorem clustered_closeFz {t : MeshTol} {A B M : Nat} {vals : List Int} (hsep : 
 theorem sepA_sepB (t : MeshTol) : 2 * sepA t ≤ sepB t := by
   unfold sepA sepB; omega
 
-end Fc
+end Fc.C02
